@@ -569,6 +569,7 @@ Lemma site_ok_sound : forall s,
   exists b, bindx (s_sig s) (s_call s) = BOk b /\
     (* forward: bare wrapper parameters land on the parameter of the same meaning *)
     (forall p x r, In (p, ABare x r) (b_named b) -> same_meaning (s_callee s) x p = true) /\
+    (forall p x, In (p, ALocal x) (b_named b) -> x = p \/ ~ In x (param_names (s_sig s))) /\
     (* no argument mentions an undefined name *)
     (forall x, ~ In (AUndefined x) (c_pos (s_call s))) /\
     (forall k x, ~ In (k, AUndefined x) (c_kw (s_call s))) /\
@@ -586,6 +587,10 @@ Proof.
   exists b. split; [reflexivity|]. repeat split.
   - intros p x r Hin. pose proof (flat_map_nil _ _ _ _ En _ Hin) as Hc. cbn in Hc.
     destruct (same_meaning (s_callee s) x p); [reflexivity|discriminate].
+  - intros p x Hin. pose proof (flat_map_nil _ _ _ _ En _ Hin) as Hc. cbn in Hc.
+    destruct (String.eqb x p) eqn:Ex; [left; apply String.eqb_eq; exact Ex|]. right.
+    cbn in Hc. destruct (smem x (param_names (s_sig s))) eqn:Em; [discriminate|].
+    apply smem_false. exact Em.
   - intros x Hin. pose proof (flat_map_nil _ _ _ _ Eu1 _ Hin) as Hc. cbn in Hc. discriminate.
   - intros k x Hin. pose proof (flat_map_nil _ _ _ _ Eu2 _ Hin) as Hc. cbn in Hc. discriminate.
   - intros x Hw Hp. pose proof (flat_map_nil _ _ _ _ Es _ Hw) as Hc. unfold shadow_check in Hc.
